@@ -390,3 +390,22 @@ Lemma tx_decoded_at_decoded cfg h x :
 Proof. intros (bs & t & H & ->). exists (hf_v2 cfg <=? h), bs, t. split; [exact H|reflexivity]. Qed.
 
 End Abstraction.
+
+(* ---- non-vacuity: the decoder does return transactions, in both modes (main-net constants).  A transfer of 5 to the
+   all-zero address with nonce 1 and fee 7, key and signature bytes zero: with the version byte 1, and without. ---- *)
+From Virel Require Import Gen.Params.
+Definition ex_tx_bytes (has_version : bool) : list N :=
+  (if has_version then [1] else []) ++ zeros 32 ++ zeros 64 ++ [1] ++ zeros 22 ++ [0; 5] ++ [1; 7].
+Definition ex_tx (ver : N) : tx := mktx ver (zeros 32) (zeros 64) (Transfer [mkoutput (zeros 22) 0 5]) 1 7.
+
+Lemma decoded_tx_examples :
+  result_of (run (dec_tx cfg_mainnet true) (ex_tx_bytes true)) = ROk (ex_tx 1) /\
+  result_of (run (dec_tx cfg_mainnet false) (ex_tx_bytes false)) = ROk (ex_tx 0) /\
+  (* the version byte selects the payload decoder: the same bytes under version byte 4 are read as a Stake (amount 1,
+     pool 0, nonce 0, fee 0; Deserialize does not look at the bytes that follow the fee), never as a transfer under
+     version 4 *)
+  result_of (run (dec_tx cfg_mainnet true) (4 :: ex_tx_bytes false)) = ROk (mktx 4 (zeros 32) (zeros 64) (Stake 1 0 0) 0 0) /\
+  (* an overlong uvarint fee (ten continuation groups, tenth byte 2 = bit 64) is refused, not truncated *)
+  result_of (run (dec_tx cfg_mainnet true)
+              ([1] ++ zeros 32 ++ zeros 64 ++ [1] ++ zeros 22 ++ [0; 5] ++ [1] ++ [128; 128; 128; 128; 128; 128; 128; 128; 128; 2])) = RErr.
+Proof. repeat split; vm_compute; reflexivity. Qed.
